@@ -5,10 +5,12 @@ import re
 
 from typing import cast
 
-from pendulum.constants import HOURS_PER_DAY
-from pendulum.constants import MINUTES_PER_HOUR
+from pendulum.constants import DAYS_PER_WEEK
 from pendulum.constants import MONTHS_OFFSETS
+from pendulum.constants import SECONDS_PER_DAY
+from pendulum.constants import SECONDS_PER_HOUR
 from pendulum.constants import SECONDS_PER_MINUTE
+from pendulum.constants import US_PER_SECOND
 from pendulum.duration import Duration
 from pendulum.helpers import days_in_year
 from pendulum.helpers import is_leap
@@ -262,6 +264,17 @@ def parse_iso8601(
     )
 
 
+def _fraction_to_microseconds(fraction: str, unit_seconds: int) -> int:
+    """
+    Length in microseconds of the decimal fraction "0.<fraction>" of a unit
+    lasting unit_seconds seconds: the exact value rounded half up.
+    """
+    denominator = 10 ** len(fraction)
+    numerator = int(fraction) * unit_seconds * US_PER_SECOND
+
+    return (2 * numerator + denominator) // (2 * denominator)
+
+
 def _parse_iso8601_duration(text: str, **options: str) -> Duration | None:
     m = ISO8601_DURATION.match(text)
     if not m:
@@ -295,8 +308,9 @@ def _parse_iso8601_duration(text: str, **options: str) -> Duration | None:
         if "." in _weeks:
             _weeks, portion = _weeks.split(".")
             weeks = int(_weeks)
-            _days = int(portion) / 10 * 7
-            days, hours = int(_days // 1), int(_days % 1 * HOURS_PER_DAY)
+            microseconds += _fraction_to_microseconds(
+                portion, DAYS_PER_WEEK * SECONDS_PER_DAY
+            )
         else:
             weeks = int(_weeks)
 
@@ -341,9 +355,9 @@ def _parse_iso8601_duration(text: str, **options: str) -> Duration | None:
             if "." in _days:
                 fractional = True
 
-                _days, _hours = _days.split(".")
+                _days, portion = _days.split(".")
                 days = int(_days)
-                hours = int(_hours) / 10 * HOURS_PER_DAY
+                microseconds += _fraction_to_microseconds(portion, SECONDS_PER_DAY)
             else:
                 days = int(_days)
 
@@ -371,9 +385,9 @@ def _parse_iso8601_duration(text: str, **options: str) -> Duration | None:
             if "." in _hours:
                 fractional = True
 
-                _hours, _mins = _hours.split(".")
+                _hours, portion = _hours.split(".")
                 hours += int(_hours)
-                minutes += int(_mins) / 10 * MINUTES_PER_HOUR
+                microseconds += _fraction_to_microseconds(portion, SECONDS_PER_HOUR)
             else:
                 hours += int(_hours)
 
@@ -386,9 +400,11 @@ def _parse_iso8601_duration(text: str, **options: str) -> Duration | None:
             if "." in _minutes:
                 fractional = True
 
-                _minutes, _secs = _minutes.split(".")
+                _minutes, portion = _minutes.split(".")
                 minutes += int(_minutes)
-                seconds += int(_secs) / 10 * SECONDS_PER_MINUTE
+                microseconds += _fraction_to_microseconds(
+                    portion, SECONDS_PER_MINUTE
+                )
             else:
                 minutes += int(_minutes)
 
@@ -399,9 +415,9 @@ def _parse_iso8601_duration(text: str, **options: str) -> Duration | None:
             _seconds = cast(str, _seconds).replace(",", ".").replace("S", "")
 
             if "." in _seconds:
-                _seconds, _microseconds = _seconds.split(".")
+                _seconds, portion = _seconds.split(".")
                 seconds += int(_seconds)
-                microseconds += int(f"{_microseconds[:6]:0<6}")
+                microseconds += _fraction_to_microseconds(portion, 1)
             else:
                 seconds += int(_seconds)
 
